@@ -142,10 +142,55 @@ def rnd_desc(rng: random.Random, i: int) -> dict[str, Any]:
     return desc
 
 
+def directed() -> list[dict[str, Any]]:
+    """
+    A served namespace disappears at the very instant its watcher is (a) between two watch requests or (b) handing an event over to a worker,
+    for every phase shift between the watcher and the orchestrator (post_yields): the two places where a cancellation used to be lost / a stream left open.
+    """
+    out: list[dict[str, Any]] = []
+    k = 0
+    for yields in (0, 1, 2, 3, 5, 8, 13):
+        for first in ('event', 'nsdel'):
+            for what in ('410', 'eof', 'timeout', 'conn', 'edit', 'edit+eof', 'compact+eof'):
+                for t_gap in (0.05, 2.0):
+                    k += 1
+                    t1 = 6.0
+                    tl: list[list[Any]] = [[0.0, 'create', 'ns1/o0', {'spec': {'x': 0}}], [0.5, 'start', 'op1'], [3.0, 'ns_add', 'ns3'], [3.3, 'create', 'ns3/b0', {'spec': {'x': 0}}],
+                                           [round(t1 - t_gap, 3), 'edit', 'ns3/b0', {'spec': {'x': 1}}]]
+                    ev: list[list[Any]] = []
+                    if 'edit' in what:
+                        ev.append([t1, 'edit', 'ns3/b0', {'spec': {'x': 2}}])
+                    if what == 'compact+eof':
+                        ev.append([t1, 'compact'])          # the re-connection gets '410 Gone' with its response, i.e. one request latency later
+                    if what != 'edit':
+                        ev.append([t1, 'break@kopfexamples', what.split('+')[-1]])
+                    nd = [[round(t1 + (0.001 if what == 'compact+eof' else 0.0), 6), 'ns_del', 'ns3']]
+                    tl += (ev + nd) if first == 'event' else (nd + ev)
+                    tl += [[9.0, 'edit', 'ns1/o0', {'spec': {'x': 5}}], [12.0, 'ns_add', 'ns4'], [15.0, 'edit', 'ns1/o0', {'spec': {'x': 6}}]]
+                    out.append({'name': f'dir{k}', 'desc': {'seed': k, 'handlers': [{'kind': 'event', 'id': 'ev'}, {'kind': 'event', 'id': 'evw', 'resource': 'kopfwidgets'}], 'timeline': tl,
+                                                            'quiet': 6.0, 'horizon': 300.0, 'latency': 0.001, 'namespaces': ['ns1', 'ns2'],
+                                                            'settings': {'queueing__idle_timeout': 1.0, 'watching__reconnect_backoff': 0.1}, 'operator_kwargs': {'namespaces': ['ns*']},
+                                                            'extra_resources': [], 'kube': {}, 'end': 'stop', 'exit_wait': 60.0, 'mode': 'pattern', 'fatal': False, 'post_yields': yields, 'lag': None}})
+    # a stream ends at the very instant the operator pauses (a higher-priority peer appears)
+    for yields in (0, 1, 2, 3, 5, 8, 13):
+        for first in ('event', 'peer'):
+            for how in ('payload', 'eof', 'conn', 'timeout', '410'):
+                k += 1
+                ev = [[6.0, 'break@kopfexamples', how]]
+                pr = [[6.0, 'peer', 'boss', 100, 4]]
+                tl = [[0.0, 'create', 'ns1/o0', {'spec': {'x': 0}}], [0.5, 'start', 'op1']] + ((ev + pr) if first == 'event' else (pr + ev)) + \
+                     [[8.0, 'edit', 'ns1/o0', {'spec': {'x': 3}}], [16.0, 'edit', 'ns1/o0', {'spec': {'x': 4}}]]
+                out.append({'name': f'dirp{k}', 'desc': {'seed': k, 'handlers': [{'kind': 'event', 'id': 'ev'}, {'kind': 'event', 'id': 'evw', 'resource': 'kopfwidgets'}], 'timeline': tl,
+                                                         'quiet': 6.0, 'horizon': 300.0, 'latency': 0.001, 'namespaces': ['ns1', 'ns2'], 'peering': {'name': 'default'},
+                                                         'settings': {'queueing__idle_timeout': 1.0, 'watching__reconnect_backoff': 0.1}, 'operator_kwargs': {},
+                                                         'extra_resources': [], 'kube': {}, 'end': 'stop', 'exit_wait': 60.0, 'mode': 'cluster', 'fatal': False, 'post_yields': yields, 'lag': None}})
+    return out
+
+
 def gen_cases(tier: str, seed: int):
     rng = random.Random(f'C19-{seed}')
     n = 300 if tier == 'quick' else 8000
-    return [{'name': f'rnd{i}', 'desc': rnd_desc(rng, i)} for i in range(n)]
+    return directed() + [{'name': f'rnd{i}', 'desc': rnd_desc(rng, i)} for i in range(n)]
 
 
 def run_case(case: dict[str, Any]) -> dict[str, Any]:
